@@ -471,6 +471,11 @@ def moved_fn(uid, x='d_x'):
   return ('old', uid, x)
 
 
+def fid_record(cfg, *a, **k):
+  """Records the arguments its call expression was parsed into."""
+  cfg.y = [list(a), sorted(k.items())]
+
+
 def fid_replace(cfg, v):
   """Fiddler that returns a replacement instead of mutating."""
   import copy
